@@ -46,7 +46,13 @@ Inductive case :=
 | CReplyLoop (replies : list (Z * bool)) (reached : list bool)
 (* message types (type bytes) frps wrote on a scripted udp work connection after it was sent a Ping and
    [ndatagrams] user datagrams arrived at the public port *)
-| CAlphabet (ndatagrams : Z) (types : list Z).
+| CAlphabet (ndatagrams : Z) (types : list Z)
+(* work connections the server-side udp proxy installed (distinct ones observed by polling) against the number
+   of failures the driver forced: one failure, one replacement *)
+| CReplace (variant failures installed : Z)
+(* udp packet size: written into a real configuration file of the given format (0 toml, 1 legacy ini), loaded by
+   the real loader for frpc and frps *)
+| CCfgSize (format configured client_loaded server_loaded : Z).
 
 Definition opt_uaddr_eqb (a b : option uaddr) : bool :=
   match a, b with
@@ -307,6 +313,8 @@ Definition check_case (c : case) : Z :=
   | CReplyLoop replies reached =>
       let model := map (fun o => match o with RLDelivered _ => true | _ => false end) (rl_run false true replies) in
       if list_bool_eqb model reached then 0 else 61
+  | CReplace _ failures installed => if installed <=? failures + 1 then 0 else 63
+  | CCfgSize _ configured cl sv => if (cl =? configured) && (sv =? configured) then 0 else 64
   | CAlphabet n types =>
       if forallb (fun t => t =? Z_of_byte udp_type_byte) types && (Z.of_nat (length types) =? n) then 0 else 62
   | CRace bufsize user d1 d2 d3 backend =>
@@ -325,6 +333,8 @@ Definition is_full (c : case) : bool := match c with CFull _ _ _ _ _ _ => true |
 Definition is_replyloop (c : case) : bool := match c with CReplyLoop _ _ => true | _ => false end.
 Definition replyloop_failed_writes (c : case) : Z :=
   match c with CReplyLoop r _ => count_if (fun x : Z * bool => negb (snd x)) r | _ => 0 end.
+Definition is_replace_case (c : case) : bool := match c with CReplace _ _ _ => true | _ => false end.
+Definition is_cfgsize (c : case) : bool := match c with CCfgSize _ _ _ _ => true | _ => false end.
 Definition is_alphabet (c : case) : bool := match c with CAlphabet _ _ => true | _ => false end.
 Definition is_race (c : case) : bool := match c with CRace _ _ _ _ _ _ => true | _ => false end.
 Definition is_cap (c : case) : bool := match c with CCap _ => true | _ => false end.
